@@ -102,9 +102,6 @@ def rule_r2(chk, db, roles):
         why = "the host parser is reached without both `parse::<SocketAddr>` and `parse::<IpAddr>` having failed on the whole Host value (found %s): " \
               "e.g. `[::1]:8014` or `127.0.0.1:80` would be treated as a virtual-host name" % failed
         chk.verdict(ok, "R2", "ip-guard", prep.loc(bi), why)
-    # on the address side the path-style parser is used with no virtual-host bucket
-    vb = [bi for bi, si, st in prep.stmts() if prep.local_name(st["dst"]["l"]) == "vh_bucket" and not st["dst"]["proj"]]
-    chk.verdict(len(vb) >= 2, "R2", "vh_bucket-assignments", prep.loc(vb[0]) if vb else prep.loc(), "vh_bucket is assigned %d times (expected: from the host parser, and None for path-style)" % len(vb), nontrivial=False)
 
 
 def constructions(body, variant):
@@ -345,6 +342,15 @@ def rule_r4(chk, db):
     chk.verdict(ok, "R4", "key-bound", b.loc(), "check_key accepts byte lengths up to %s (documented: 1024)" % hi)
 
 
+def _is_closure(b, op, name):
+    """the operand is the closure `name` (possibly bound to a local first)"""
+    for l, pr in (flow.resolve_chain(b, op) or []):
+        for df in b.defs().get(l, []):
+            if df["kind"] == "assign" and df["rv"]["k"] == "agg" and df["rv"].get("agg") == "closure" and df["rv"].get("def") == name:
+                return True
+    return False
+
+
 def rule_r5(chk, db):
     b = db.body("s3s::host::MultiDomain::new")
     if b is None:
@@ -381,8 +387,7 @@ def rule_r5(chk, db):
                     # closure result true => the enclosing any()/find() hit refuses
                     refuses = False
                     for pb, pt in b.calls():
-                        if short(callee_def(pt)) in ("any", "find", "position") and any(flow.op_place(a_) is not None and flow.single_def(b, flow.op_place(a_)["l"]) and
-                                                                                     flow.single_def(b, flow.op_place(a_)["l"]).get("rv", {}).get("def") == x.name for a_ in pt["args"]):
+                        if short(callee_def(pt)) in ("any", "find", "position") and any(_is_closure(b, a_, x.name) for a_ in pt["args"]):
                             o = flow.outcomes_of_call(b, pb)
                             hit = o.get("true") | o.get("Some")
                             fw = first_writes_from(b, hit) if hit else []
